@@ -35,6 +35,52 @@ func phiInitStep(c *Ctx, fn *ssa.Function, name string) (init, step string, ok b
 	return "", "", false
 }
 
+// phiInitStepOf: initial value and step expression of a two-edge loop phi (identified by the caller through its role).
+func phiInitStepOf(c *Ctx, fn *ssa.Function, p *ssa.Phi) (init, step string, ok bool) {
+	if p == nil || len(p.Edges) != 2 {
+		return "", "", false
+	}
+	f := c.Facts(fn)
+	a, bb := f.tr.term(nil, p.Edges[0], 0), f.tr.term(nil, p.Edges[1], 0)
+	self := f.tr.term(nil, p, 0)
+	if strings.Contains(bb, self) {
+		return a, bb, true
+	}
+	if strings.Contains(a, self) {
+		return bb, a, true
+	}
+	return "", "", false
+}
+
+// indexPhiOf: the loop phi used (possibly inside arithmetic) as the index of v = X[idx] / &X[idx].
+func indexPhiOf(v ssa.Value) *ssa.Phi {
+	_, idx := indexBase(v)
+	if idx == nil {
+		if ia, ok := v.(*ssa.IndexAddr); ok {
+			idx = ia.Index
+		}
+	}
+	var find func(x ssa.Value, d int) *ssa.Phi
+	find = func(x ssa.Value, d int) *ssa.Phi {
+		if d > 4 || x == nil {
+			return nil
+		}
+		switch y := x.(type) {
+		case *ssa.Phi:
+			return y
+		case *ssa.BinOp:
+			if p := find(y.X, d+1); p != nil {
+				return p
+			}
+			return find(y.Y, d+1)
+		case *ssa.Convert:
+			return find(y.X, d+1)
+		}
+		return nil
+	}
+	return find(idx, 0)
+}
+
 func runC03(c *Ctx) {
 	c.Explanation = "Value-flow, ordering and sibling-agreement rules for the canonical index: BlockChain.insert and HeaderChain.WriteHeader write the canonical number entry, the head pointer and the in-memory head for one and the same block/header; reorg inserts every block of the new chain oldest-first together with its transaction lookup entries and deletes exactly the lookup entries of TxDifference(all dropped, all added); every function that can make a lower block the head (reorg, WriteHeader, HeaderChain.SetHead) clears the number entries above the new head with an unbounded upward loop starting at head+1 (sibling agreement; finding F5 was the missing loop in reorg); rewinds delete header, TD and number of every unwound height and re-derive the head pointers; a block written with state always has its body and receipts written and, when canonical, its lookup entries. Decides these shapes on all paths; exactness of the index over arbitrary histories is not decided."
 	c.NotDecided = []string{"the full iff for transaction lookups and number entries over arbitrary import/reorg/rewind histories", "retrievability of data written by earlier sessions"}
